@@ -725,7 +725,8 @@ MODEL_PRIMS = [("PAdd", "primop", "(+)"), ("PSub", "primop", "(-)"), ("PMul", "p
                ("PNot", "primop", "bool/not"), ("PConcat", "primop", "string/concat"), ("PArrCat", "primop", "(@)"),
                ("PEq", "primop", "(==)"),
                ("PStrLen", "std", "string.length"), ("PArrLen", "std", "array.length"), ("PArrAt", "std", "array.at"),
-               ("PArrMap", "std", "array.map")]
+               ("PArrMap", "std", "array.map"), ("PRecFields", "std", "record.fields"), ("PRecValues", "std", "record.values"),
+               ("PRecHas", "std", "record.has_field"), ("PRecGet", "std", "record.get")]
 
 
 def std_type(exe):
@@ -758,6 +759,8 @@ def model_ty_coq(t, env):
         return "(TArr %s)" % model_ty_coq(t[1], env)
     if h == "fun":
         return "(TFun %s %s)" % (model_ty_coq(t[1], env), model_ty_coq(t[2], env))
+    if h == "dict":
+        return "(TDict %s)" % model_ty_coq(t[2], env)
     if h == "forall":
         if t[2] != "ty":
             raise TranslatorError("row quantifier in a model primitive")
